@@ -71,8 +71,6 @@ def classify_program(stored, raw):
     lines = raw.split("\n")
     if re.search(r"(?m)^\s*@.*\n\s*async\s+def\b", stored):
         return SIG_ASYNC
-    if any(0x1C <= ord(ch) <= 0x1F for ch in raw):
-        return SIG_FS
     if "_pos=" in stored:
         return SIG_POSSTR
     for m in re.finditer(r"(?i)#\s*paroxython\s*:\s*(.*)", raw):
